@@ -9,7 +9,8 @@ CONSTANTS
   MaxMitm = 3
   MaxSmall = 4
   AuthChoices <- AuthAll
+  Segs = {0, 1, 7, 700, 1041, 1043}
 VIEW view
 INVARIANTS TypeOK Framing StreamIntegrity NoLossWhenUntouched
-PROPERTIES ReadContract TamperDetected PeerIdentityIsChallengeSigner
+PROPERTIES ReadContract TamperDetected PeerIdentityIsChallengeSigner CarrierTransparent
 CHECK_DEADLOCK FALSE
